@@ -272,6 +272,10 @@ def resolve_local(func, expr, depth=0):
                and isinstance(n.targets[0], ast.Name) and n.targets[0].id == expr.id]
         others = [n for n in walk_own(func.node) if isinstance(n, (ast.AugAssign, ast.For, ast.comprehension)) and any(
             isinstance(x, ast.Name) and x.id == expr.id and isinstance(x.ctx, ast.Store) for x in ast.walk(n.target))]
+        # chained / unpacking assignments and walrus bind the name too
+        others += [n for n in walk_own(func.node) if isinstance(n, ast.Assign) and n not in asg and any(
+            isinstance(x, ast.Name) and x.id == expr.id and isinstance(x.ctx, ast.Store) for t in n.targets for x in ast.walk(t))]
+        others += [n for n in walk_own(func.node) if isinstance(n, ast.NamedExpr) and n.target.id == expr.id]
         if len(asg) != 1 or others or expr.id in func.params:
             return expr
         expr = asg[0].value
@@ -518,6 +522,9 @@ def reaching_def_nodes(cfgnode, name, limit=600):
             if any(isinstance(x, ast.Name) and x.id == name and isinstance(x.ctx, ast.Store) for x in ast.walk(tgt)):
                 return None
         preds = [p for p, lab in n.pred if lab != "exc"]
+        if not preds:
+            # the entry of an exception handler is reached through exception edges only
+            preds = [p for p, lab in n.pred]
         if not preds:
             return None
         stack.extend(preds)
